@@ -133,7 +133,7 @@ def build_catalogue(tier, seed):
                          y=b1[1], z=b1[2])
         out.append({"kind": "unknown-element", "text": pdbio.write([e for e in s.entries if isinstance(e, pdbio.Atom)
                                                                    or e.startswith("TER")] + [het])})
-    for k, lig in enumerate(["MLA", "MGX"] if tier == "quick" else ["MLA", "MGX", "AMD", "PYR", "MPO"]):
+    for k, lig in enumerate(["MLA", "MPO"] if tier == "quick" else ["MLA", "MPO", "MGX", "AMD", "PYR"]):
         s = base[(k + 2) % len(base)]
         b1 = pdbio.bbox(s.entries)[1]
         het = gen.hetero_residue(gen.LIGANDS[lig]["resn"], gen.LIGANDS[lig]["atoms"], "L", 800, pdbio.ROTATIONS[k],
